@@ -8,11 +8,13 @@ import Biogo.Go.Wire
 import Biogo.Model.Alphabet
 import Biogo.Model.Kmer
 import Biogo.Spec.Kmer
+import Biogo.Spec.KmerGroup
 import Biogo.Generated.Alphabets
 
 namespace Biogo.Drive.C10
 open Biogo.Wire Biogo.Kmer
 open Biogo.Spec.Kmer (Lookup encode toDigits digits wordsFrom allWindows validWindows revComp gcCount)
+open Biogo.Spec.KmerGroup (byWord byText ltBytes)
 
 def findDef (n : String) : Option Biogo.Alphabet.Def := Biogo.Generated.builtins.find? (·.name == n)
 
@@ -27,32 +29,9 @@ def letterOf (a : Biogo.Alphabet.Alpha) (i : Nat) : UInt8 := (a.letter i).getD 0
 def dots (xs : List Nat) : String := if xs.isEmpty then "-" else ".".intercalate (xs.map toString)
 def orDash (xs : List String) (sep : String) : String := if xs.isEmpty then "-" else sep.intercalate xs
 
-def ltPair (a b : Nat × Nat) : Bool := a.1 < b.1 || (a.1 == b.1 && a.2 < b.2)
-
-/-- group a list sorted by key into (key, values) -/
-def groupSorted {α β} [BEq α] (xs : List (α × β)) : List (α × List β) :=
-  let r := xs.foldl (fun (acc : List (α × List β)) x =>
-    match acc with
-    | (k, vs) :: rest => if k == x.1 then (k, x.2 :: vs) :: rest else (x.1, [x.2]) :: acc
-    | [] => [(x.1, [x.2])]) []
-  (r.map fun kv => (kv.1, kv.2.reverse)).reverse
-
-/-- the windows of a plain scan grouped by word: `(word, positions)` by increasing word -/
-def byWord (ws : List (Nat × Nat)) : List (Nat × List Nat) :=
-  let arr := (ws.map fun c => (c.2, c.1)).toArray.qsort ltPair
-  groupSorted arr.toList
-
-def ltBytes : List UInt8 → List UInt8 → Bool
-  | [], [] => false
-  | [], _ :: _ => true
-  | _ :: _, [] => false
-  | a :: as, b :: bs => a < b || (a == b && ltBytes as bs)
-
-/-- the windows of a plain scan grouped by their lower-cased text -/
-def byText (s : Array UInt8) (k : Nat) (ws : List (Nat × Nat)) : List (List UInt8 × List Nat) :=
-  let keyed := ws.map fun c => (((s.extract c.1 (c.1 + k)).toList.map Biogo.Alphabet.toLower), c.1)
-  let arr := keyed.toArray.qsort fun a b => ltBytes a.1 b.1 || (a.1 == b.1 && a.2 < b.2)
-  groupSorted arr.toList
+-- `byWord` / `byText` (the plain scan grouped by word / by lower-cased text, groups and positions
+-- increasing) and `ltBytes` are `Biogo.Spec.KmerGroup`'s; `Properties/C10_checker.lean` proves
+-- that they are `occurrences` (`byWord_spec`, `byWord_lookup`, `byWord_eq`, `byText_spec`, `byText_lookup`)
 
 def renderWordMap (m : List (Nat × List Nat)) : String :=
   orDash (m.map fun kv => s!"{kv.1}:{dots kv.2}") ","
